@@ -31,10 +31,17 @@ type SimSpec struct {
 	ExtraConst string
 }
 
+func (s SimSpec) extra() string {
+	if s.Module == "MCIavlStore" {
+		return s.ExtraConst + "  FixLvfoLabel = TRUE\n"
+	}
+	return s.ExtraConst
+}
+
 func (s SimSpec) cfg() string {
 	var sb strings.Builder
 	fmt.Fprintf(&sb, "SPECIFICATION %s\nCONSTANTS\n  K = %d\n  V = %d\n  IVs = %s\n  D = %d\n  MaxVer = 99\n  MaxOps = 99\n  Record = TRUE\n", s.Spec, s.K, s.V, s.IVs, s.D)
-	fmt.Fprintf(&sb, "  Classes <- GenClasses\n%s", s.ExtraConst)
+	fmt.Fprintf(&sb, "  Classes <- GenClasses\n%s", s.extra())
 	if len(s.Invs) > 0 {
 		fmt.Fprintf(&sb, "INVARIANTS %s\n", strings.Join(s.Invs, " "))
 	}
@@ -112,6 +119,7 @@ type replayFile struct {
 	Summary   string          `json:"summary"`
 	Note      string          `json:"note,omitempty"`
 	Checks    []string        `json:"checks,omitempty"`
+	Finding   string          `json:"finding,omitempty"` // witness of a listed known finding
 }
 
 type cfgJSON struct {
@@ -282,6 +290,7 @@ func (c *BehavCheck) Run() int {
 	opCount := map[string]int{}
 	nontrivial := 0
 	truncated := map[string]int{}
+	toleratedObs := map[string]int{}
 	knownSeen := map[string]string{}
 	var violations []string
 	replayDir := filepath.Join(VerifDir, "evidence", "replays")
@@ -293,6 +302,14 @@ func (c *BehavCheck) Run() int {
 	for idx, r := range results {
 		steps += r.stats.Steps
 		observations += r.stats.Observations
+		for fid, n := range r.stats.Known {
+			if f, ok := known[fid]; ok && f.Status == "known" {
+				toleratedObs[fid] += n
+			} else {
+				// the finding is not listed (any more): the observation is a violation
+				r.out.Violation = &exec.Violation{Class: "finding", Step: -1, Msg: "observation matching signature " + fid + " which is not listed as a known finding", Expected: "property-level answer", Observed: r.stats.KnownEx[fid]}
+			}
+		}
 		var v *exec.Violation
 		if r.out.Violation != nil {
 			v = r.out.Violation
@@ -351,6 +368,27 @@ func (c *BehavCheck) Run() int {
 		mine := false
 		for _, id := range rf.Checks {
 			mine = mine || id == c.ID
+		}
+		if rf.Finding != "" && c.OwnFindings[rf.Finding] {
+			// the committed witness of a listed finding: KNOWN-FINDING is printed iff it still reproduces
+			wb, err := model.ParseBehaviour(string(rf.Behaviour))
+			if err != nil {
+				return fail(2, "INCONCLUSIVE: witness "+wf+": "+err.Error())
+			}
+			wcfg := exec.Config{Cache: rf.Config.Cache, Flush: rf.Config.Flush, Sync: rf.Config.Sync, Backend: rf.Config.Backend, IVCall: rf.Config.IVCall,
+				Compress: rf.Config.Compress, Pal: palette.New(rf.Config.Palette, rf.Config.K, rf.Config.PalSeed)}
+			out, st := c.runOne(wb, wcfg, rf.Config.ExecSeed)
+			witnesses++
+			f, listed := known[rf.Finding]
+			if listed && f.Status == "known" && st.Known[rf.Finding] > 0 && out.Violation == nil && !out.Hang && out.Panic == "" {
+				knownSeen[rf.Finding] = fmt.Sprintf("%s (witness %s: %s)", f.Signature, filepath.Base(wf), truncate(st.KnownEx[rf.Finding], 300))
+			} else if out.Violation != nil {
+				fmt.Printf("  witness %s of finding %s: %s\n", wf, rf.Finding, out.Violation.Error())
+				violations = append(violations, fmt.Sprintf("VIOLATION property=%s replay=%s", c.ID, wf))
+			} else {
+				fmt.Printf("NOTE: listed finding %s does not reproduce on its witness %s any more\n", rf.Finding, filepath.Base(wf))
+			}
+			continue
 		}
 		if !mine {
 			continue
@@ -414,6 +452,7 @@ func (c *BehavCheck) Run() int {
 	ev.Coverage["observations_compared"] = observations
 	ev.Coverage["action_counts"] = opCount
 	ev.Coverage["truncated_by_finding"] = truncated
+	ev.Coverage["observations_explained_by_listed_finding"] = toleratedObs
 	ev.Coverage["simulation"] = fmt.Sprintf("tlc -simulate num=%d x %d workers, depth %d, K=%d V=%d IVs=%s, seed %d", c.Sim.Num, c.Sim.Workers, c.Sim.D, c.Sim.K, c.Sim.V, c.Sim.IVs, c.Seed)
 	ev.Violations = len(violations)
 	if c.PostRun != nil {
